@@ -117,6 +117,7 @@ def run(rec):
     covering(rec, rng, quick)
     segments(rec, rng, quick)
     exact_diag_conversions(rec, rng, quick)
+    projected_product_states(rec, rng, quick)
     infinite(rec, rng, quick)
 
 
@@ -298,6 +299,45 @@ def exact_diag_conversions(rec, rng, quick):
             p0 = ed.full_to_mps(v0)
             rec.check(abs(M.H_MPO.expectation_value(p0) - E0) < 1e-9, 'ExactDiag.full_to_mps(groundstate):energy',
                       f'{M.H_MPO.expectation_value(p0)} vs {E0}', {'model': mname, 'L': L})
+
+
+def projected_product_states(rec, rng, quick):
+    """MPS.project_onto_charge_sector: the product state of local superpositions, projected onto one total charge (and normalised)"""
+    from tenpy.networks.mps import MPS
+    from tenpy.networks import site as S
+    for sname, mk in (('SpinHalf[Sz]', lambda: S.SpinHalfSite('Sz', sort_charge=True)), ('Boson[N,Nmax=2]', lambda: S.BosonSite(2, 'N')),
+                      ('Fermion[N]', lambda: S.FermionSite('N'))):
+        for L in ((3, 4) if quick else (2, 3, 4, 5)):
+            st = mk()
+            sites = [st] * L
+            local = [rng.standard_normal(st.dim) for _ in range(L)]
+            # "a product state (as used in MPS.from_product_state)": there a local vector is given in the basis of conserve=None and
+            # permuted with the site's `perm` (documented option permute=True)
+            full = np.asarray(local[0])[st.perm]
+            for x in local[1:]:
+                full = np.multiply.outer(full, np.asarray(x)[st.perm])
+            # total charge of each basis state
+            q = st.leg.to_qflat()[:, 0] * st.leg.qconj
+            tot = np.zeros([st.dim] * L, dtype=int)
+            for ax in range(L):
+                shp = [1] * L
+                shp[ax] = st.dim
+                tot = tot + q.reshape(shp)
+            sector = int(rng.choice(np.unique(tot)))
+            exp = full * (tot == sector)
+            inp = {'site': sname, 'L': L, 'sector': sector}
+            rec.begin(f'C07 project_onto_charge_sector {inp}')
+            rec.case(('project', sname, L), True)
+            if np.linalg.norm(exp) < 1e-10:
+                continue
+            exp = exp / np.linalg.norm(exp)
+            ok, psi = rec.guarded('project_onto_charge_sector:exception', lambda: MPS.project_onto_charge_sector(sites, local, [sector]), inp)
+            if not ok:
+                continue
+            d = mpsgen.dense_state(psi)
+            ov = abs(np.vdot(exp.ravel(), d.ravel()))
+            rec.check(abs(ov - 1) < 1e-9 and abs(np.linalg.norm(d) - 1) < 1e-9, 'project_onto_charge_sector:state', f'|overlap| {ov}, norm {np.linalg.norm(d)}', inp)
+            rec.check(np.max(np.abs(psi.norm_test())) < 1e-8, 'project_onto_charge_sector:norm_test', '', inp)
 
 
 def infinite(rec, rng, quick):
